@@ -250,11 +250,16 @@ class Dispatcher:
 
     def subscribe(self, observer: DispatcherObserver):
         """Subscribes an observer to the dispatcher."""
-        self.subscribers.append(observer)
+        # A new list: a notification round that is under way (an observer may
+        # subscribe or unsubscribe observers inside its callback) goes on
+        # with the subscribers it started with.
+        self.subscribers = self.subscribers + [observer]
 
     def unsubscribe(self, observer: DispatcherObserver):
         """Unsubscribes an observer from the dispatcher."""
-        self.subscribers.remove(observer)
+        subscribers = list(self.subscribers)
+        subscribers.remove(observer)
+        self.subscribers = subscribers
 
     def reset(self) -> None:
         """Resets the dispatcher to its initial state."""
